@@ -103,17 +103,69 @@ class Summary:
         return (len(self.mods), len(self.rejs), len(self.fs), len(self.qmods))
 
 
+_LOCALS_CACHE: dict[int, dict[str, str]] = {}
+
+
+def _local_map(fn_node) -> dict[str, str]:
+    """{local name: $rank} for the locals of a function (parameters and globals excluded) - see sa/canon.py."""
+    m = _LOCALS_CACHE.get(id(fn_node))
+    if m is not None:
+        return m
+    params: set[str] = set()
+    a = getattr(fn_node, "args", None)
+    if a is not None:
+        params = {x.arg for x in a.posonlyargs + a.args + a.kwonlyargs}
+        if a.vararg:
+            params.add(a.vararg.arg)
+        if a.kwarg:
+            params.add(a.kwarg.arg)
+    order: list[str] = []
+    skip: set[str] = set()
+
+    def visit(n):
+        for c in ast.iter_child_nodes(n):
+            if isinstance(c, (ast.FunctionDef, ast.AsyncFunctionDef, ast.Lambda, ast.ClassDef)):
+                continue
+            if isinstance(c, (ast.Global, ast.Nonlocal)):
+                skip.update(c.names)
+            if isinstance(c, ast.Name) and isinstance(c.ctx, (ast.Store, ast.Del)) and c.id not in order:
+                order.append(c.id)
+            visit(c)
+
+    visit(fn_node)
+    m = {n: f"${k}" for k, n in enumerate(x for x in order if x not in params and x not in skip)}
+    _LOCALS_CACHE[id(fn_node)] = m
+    return m
+
+
+def cnorm(node: ast.AST, fn_node) -> str:
+    """norm() with the function's local variable names replaced by their binding rank ($0, $1 …): the text does not
+    change when locals are renamed."""
+    m = _local_map(fn_node)
+    if not m or not any(isinstance(x, ast.Name) and x.id in m for x in ast.walk(node)):
+        return norm(node)
+    # rename in place, print, restore (a deepcopy would follow the _parent links and copy the whole module)
+    touched = [(x, x.id) for x in ast.walk(node) if isinstance(x, ast.Name) and x.id in m]
+    try:
+        for x, old in touched:
+            x.id = m[old]
+        return norm(node)
+    finally:
+        for x, old in touched:
+            x.id = old
+
+
 def path_condition(node: ast.AST, stop) -> str:
-    """Conjunction of the if-tests controlling ``node`` inside function ``stop``."""
+    """Conjunction of the if-tests controlling ``node`` inside function ``stop`` (alpha-stable text)."""
     parts = []
     child = node
     p = getattr(node, "_parent", None)
     while p is not None and p is not stop:
         if isinstance(p, ast.If):
             if child in p.body:
-                parts.append(norm(p.test))
+                parts.append(cnorm(p.test, stop))
             elif child in p.orelse:
-                parts.append(f"not ({norm(p.test)})")
+                parts.append(f"not ({cnorm(p.test, stop)})")
         elif isinstance(p, (ast.For, ast.AsyncFor)) and child in p.orelse:
             parts.append("loop-else")
         elif isinstance(p, ast.ExceptHandler):
@@ -506,7 +558,7 @@ class Effects:
                 q = self._qual(f, base.value, fld) if isinstance(base, ast.Attribute) else fld
                 self._sum[f.key].qmods.add((tag, q))
                 if delete:
-                    rej = Rej(f.key, f"key of `{norm(stmt)}` absent", "KeyError", stmt)
+                    rej = Rej(f.key, f"key of `{cnorm(stmt, f.node)}` absent", "KeyError", stmt)
                     evs.append(Event("C", stmt, f"{norm(stmt)} may raise", [rej], loop=loop))
                 evs.append(Event("M", stmt, f"{norm(t)} {'deleted' if delete else 'stored'}", loop=loop, tags=[tag], fields=[f"{fld}[]"], qfields=[q]))
 
@@ -538,7 +590,7 @@ class Effects:
                 tag = self.root_tag(f, recv)
                 if tag is not None and fld not in CACHE_FIELDS:
                     if m in BUILTIN_REJECTING_METHODS or (m == "pop" and len(call.args) == 1 and any(a[0] == "dict" for a in rt)):
-                        rej = Rej(f.key, f"`{norm(call)}`: {BUILTIN_REJECTING_METHODS.get(m, 'key absent')}", "LookupError", call)
+                        rej = Rej(f.key, f"`{cnorm(call, f.node)}`: {BUILTIN_REJECTING_METHODS.get(m, 'key absent')}", "LookupError", call)
                         evs.append(Event("C", call, f"{norm(call)} may raise", [rej], loop=loop))
                     if m not in MULTISET_PRESERVING or True:
                         s.mods.add((tag, f"{fld}.{m}()"))
